@@ -27,6 +27,12 @@ def run(ctx):
     check_scan_and_listeners(ctx, prog)
     check_join(ctx, prog, 'C14')
     check_close(ctx, prog)
+    # an accepted connection is built through Socket_(int fd): it must start in the same state (no error, blocking, native
+    # byte order) as a socket built through the default constructor
+    import ctorinit
+    n_c = ctorinit.check(ctx, prog, 'C14.init', [r for r in sorted(prog.records) if r.startswith('asl::') and r.endswith('Socket_')],
+                         consequence=' - the connection handed to serve() may already report an error, so reads return nothing')
+    ctx.floor('C14.init constructors of the socket classes compared', n_c, 2)
     check_sigpipe(ctx, prog)
     fixture = os.path.join(ir.VERIF, 'fixtures', 'selfdelete_bad.cpp')
     fprog = ir.load_units([fixture])
@@ -323,6 +329,23 @@ def check_stop(ctx, prog):
             ctx.violation('C14.stop', f['pq'], role, fwhere(f, stores[0]['l']), 'startLoop can return without storing `_running = false`: stop(true) then waits for ever')
         else:
             ctx.ok('C14.stop', f['pq'], role, fwhere(f, stores[0]['l']), 'no wait/accept is reachable after the store, and every exit has passed it')
+    # (c) the request is for every in-flight serve() as well (`while (connected && !_requestStop)`): the accept loop must not take
+    # it back once it has started waiting for connections - a clear before the first wait (a restart) is not concerned
+    def is_unrequest(e):
+        return e.get('k') == 'bin' and e.get('op') == '=' and strip_lv(e['x']).get('f') == '_requestStop' and const_val(e['y']) == 0
+    taken_back = []
+
+    def step2(nd, st):
+        if nd.kind == 'ev' and nd.e is not None:
+            for w in walk_expr(nd.e):
+                if st and is_unrequest(w):
+                    taken_back.append(nd.line)
+                if is_loop_work(w):
+                    st = True
+        return st
+    cfgm.dataflow(cfg, False, step2, edge)
+    ctx.check(not taken_back, 'C14.stop', f['pq'], 'startLoop:the stop request is not taken back by the loop', fwhere(f, taken_back[0] if taken_back else None), 'no `_requestStop = false` after the first wait/accept',
+              'the accept loop stores `_requestStop = false` (line %s) after it started accepting: a serve() that polls the flag a moment later never sees the request, its connection stays in flight and stop(true) does not return' % (taken_back[0] if taken_back else ''))
     # stop(true): sets the request, then returns only when the loop has ended and no serve() is in flight.  Decided on the CFG
     # of stop(): with (sync, _running, _numClients) bound, follow only the branch edges their conditions allow, starting after
     # the poll sleep: the function exit may be reachable without sleeping again only for (_running, _numClients) = (false, 0)
